@@ -53,7 +53,8 @@ class DDLParser(Parser, Dialects):
             t.type = "LT"
             self.lexer.lt_open += t.value.count("<")
         if ">" in t.value and not self.lexer.check:
-            t.type = "RT"
+            if "<" not in t.value:
+                t.type = "RT"
             self.lexer.lt_open -= t.value.count(">")
         return t
 
